@@ -29,6 +29,19 @@ package rdbrestore
 //   expanded  number of times a value (chunk) was expanded into native commands on the target
 //   nDel / nPexpire  DEL / PEXPIRE requests issued (ghost log of client.Redis.Do)
 
+// SpecNativeKeyIndex is the position of the key among the arguments of a native command that
+// rdb.Parser.ExecCmd produces for a keyed value (XGROUP CREATE key ... ; key first otherwise).
+func SpecNativeKeyIndex(cmd string) int {
+	if SpecEqualFold(cmd, "xgroup") {
+		return 1
+	}
+	return 0
+}
+
+func SpecEqualFold(a, b string) bool { panic("abstract spec function") }
+
+//@ spec SpecEqualFold abstract
+
 func SpecReplyTruth(reply interface{}) bool { panic("abstract spec function") }
 
 //@ spec SpecReplyTruth abstract
@@ -69,6 +82,20 @@ func SpecReplyTruth(reply interface{}) bool { panic("abstract spec function") }
 //@   modifies expanded
 //@   ensures counted: expanded == old(expanded) + 1
 
+//@ func client.Redis.Send(self, cmd, args) (err)
+//@   trusted abstract target connection
+
+// Every native command a value is expanded into is addressed to the entry's key - the key the
+// EXISTS probe, the DEL of "replace" and the PEXPIRE address (with replaceHashTag it differs from
+// the key the parser read from the snapshot).
+//@ func restoreBigRdbEntry$1
+//@   arith int
+//@   properties C20
+//@   replay rdbrestore_hashtagExpanded
+//@   requires nonnil: cli != nil && e != nil
+//@   modifies heap
+//@   assert at call Send: value_is_written_to_the_key_the_policy_examined: SpecNativeKeyIndex(cmd) < len(args) ==> args[SpecNativeKeyIndex(cmd)] == dyn(e.Key)
+
 //@ func body:RdbReplay.Replay
 //@   arith int
 //@   properties C20
@@ -85,8 +112,10 @@ func SpecReplyTruth(reply interface{}) bool { panic("abstract spec function") }
 //@   ensures error_stops_before_writing: probed == 1 && rr.KeyExists == "error" ==> err != nil && expanded == old(expanded) && nDel == old(nDel) && nPexpire == old(nPexpire)
 //@   ensures replace_deletes_first: probed == 1 && rr.KeyExists == "replace" && err == nil ==> nDel == old(nDel) + 1 && expanded == old(expanded) + 1
 //@   ensures absent_key_is_written: probed == 0 && err == nil ==> expanded == old(expanded) + 1 && nDel == old(nDel)
+//@   assert at call Do: policy_requests_address_the_entrys_key: len(args) > 0 && (cmd == "exists" || cmd == "del" || cmd == "pexpire" || cmd == "restore") ==> args[0] == dyn(e.Key)
 //@   assert at call restoreBigRdbEntry: native_fallback_after_a_refused_replace_deletes_the_old_value_first: probed == 0 - 1 && reqs >= old(reqs) + 2 ==> nDel == old(nDel) + 1
 //@   ensures native_fallback_applies_the_expiry: err == nil && probed == 0 - 1 && expanded == old(expanded) + 1 && old(e.ExpireAt) != 0 ==> nPexpire == old(nPexpire) + 1
 //@   loop 1:
 //@     invariant restore_path: fresh(params) && probed == 0 - 1 && expanded == old(expanded) && nDel == old(nDel) && nPexpire == old(nPexpire)
 //@     invariant replace_is_remembered: reqs >= old(reqs) && (replace <==> reqs > old(reqs))
+//@     invariant restore_addresses_the_entrys_key: len(params) > 0 && params[0] == dyn(e.Key)
